@@ -65,6 +65,11 @@ CLAIMED = {
          "seeded search over 2-4 concurrent connections x ending kinds (orderly close; close or RST at any byte of a request's header, annotations or payload; malformed request; partial-request and idle timeouts; SecurityError; one-way then close; RST while idle; still open) x tracked/untracked resource counts x raising user hook / raising resource close() x server types x COMMTIMEOUT x schedules; oracle at quiescence: hook exactly once per ended accepted connection (0 while open, at most once for refused handshakes), every still-tracked resource closed exactly once and untracked ones never, session instances and tracked set dropped, server-side socket closed, no busy worker / selector key left, open connections keep answering, the request loop never ends",
          "samples endings and schedules; resources are tracked from normal calls only; RST-on-close-with-unread-data not modelled",
          "DESIGN.md section 4 C13"),
+ "C10": ("exploration",
+         "deterministic simulation: real Daemon (both server types, real Housekeeper thread on the virtual clock) and real Proxy/_StreamResultIterator clients; op histories replayed against a may/must reference model that uses stamped observations of housekeeping passes and disconnect handling; line pre-emption inside the stream functions",
+         "seeded search over histories of open/next/close/release/reconnect/advance on 1-4 concurrent streams from 1-2 proxies x source shapes (generator/list, empty, long, raising at k) x ITER_STREAMING on/off x lifetime {0,5,20} x linger {0,3,10} x clock advances up to 30 s x server types x schedules (expiry-race shape: close/fetch at the instant of the housekeeping pass after expiry); oracle: each stream yields a gap-free duplicate-free prefix of its own source in order, ends/raises exactly as the model allows (never an item from a forgotten stream, never an error while must-be-live), reconnect within linger continues, the stream table is empty at the end, no server thread dies",
+         "samples histories and schedules; client ops run sequentially across proxies; no network faults in this world (C03 covers them); expiry is demanded only after an observed housekeeping pass (may/must split)",
+         "DESIGN.md section 4 C10"),
 }
 PENDING = "claimed in DESIGN.md but its check is not built yet; see DESIGN.md section 4"
 ALL = ["C%02d" % i for i in range(1, 21)]
